@@ -35,8 +35,8 @@ Qed.
 
 Lemma head_fine_quant l : head_fine l -> p_quant l = PV None l.
 Proof.
-  destruct l as [|c t]; [reflexivity|]. cbn. intros H.
-  apply p_quant_none; intros ->; destruct H as [H|[H|[H|H]]]; discriminate.
+  destruct l as [|c t]; [reflexivity|]. intros H. destruct (head_fine_nq c t H) as (N1 & N2 & N3 & N4).
+  apply p_quant_none; intros ->; discriminate.
 Qed.
 
 Lemma head_fine_app cs rest : forallb ordinary cs = true -> head_fine rest -> head_fine (cs ++ rest).
@@ -74,6 +74,9 @@ Proof.
   - intros cs c k rel b IHb p q Hp H. cbn [Db] in H. apply in_flat_map in H as (m & Hm & H).
     apply in_flat_map in Hm as (m1 & Hm1 & Hm). apply lit_le in Hm1. eapply IHb; [|exact H].
     eapply (Dq_le input ci multi); [|exact Hm]. tauto.
+  - intros cs eol b IHb p q Hp H. cbn [Db] in H. apply in_flat_map in H as (m & Hm & H).
+    apply in_flat_map in Hm as (m1 & Hm1 & Hm). apply lit_le in Hm1. eapply IHb; [|exact H].
+    eapply (Dan_le input ci multi); [|exact Hm]. tauto.
   - intros b IHb p q Hp H. exact (IHb p q Hp H).
   - intros b IHb a IHa p q Hp H. cbn [Da] in H. apply in_app_iff in H as [H|H]; eauto.
 Qed.
@@ -132,12 +135,19 @@ Proof. destruct k; reflexivity. Qed.
 Lemma not_qmark_match {A} (l : list N) (X : list N -> A) (Y : A) : head_fine l ->
   match l with 63%N :: r3 => X r3 | _ => Y end = Y.
 Proof.
-  destruct l as [|c t]; [reflexivity|]. cbn. intros H. destruct c as [|p]; [reflexivity|].
-  do 6 (try (destruct p as [p|p|]); try reflexivity). exfalso.
-  destruct H as [H|[H|[H|H]]]; discriminate.
+  destruct l as [|c t]; [reflexivity|]. intros H. destruct (head_fine_nq c t H) as (N1 & _).
+  destruct c as [|p]; [reflexivity|].
+  do 6 (try (destruct p as [p|p|]); try reflexivity). discriminate.
 Qed.
 Lemma Dq_flags c k rel m : E (RQuant (RChar c) (qmin k) (qmaxo k) (negb rel)) m = Dq input ci multi c k rel m.
 Proof. reflexivity. Qed.
+
+(* an anchor *)
+Lemma p_atom_anchor f st (eol : bool) t : p_atom (S f) true st ((if eol then 36%N else 94%N) :: t)
+  = PV ((if eol then REol else RBol), st) t.
+Proof. destruct eol; reflexivity. Qed.
+Lemma Dan_flags (eol : bool) m : E (if eol then REol else RBol) m = Dan input ci multi eol m.
+Proof. destruct eol; reflexivity. Qed.
 
 Definition Q_b (b : branch) : Prop :=
   ok_b xpath b = true -> forall post st acc fuel, term_b post -> 6 * length (show_b b) + 6 <= fuel ->
@@ -183,8 +193,8 @@ Proof.
     { destruct cap; subst opt; cbn [app].
       - rewrite p_atom_cap.
         2:{ pose proof (head_fine_a xpath a (41%N :: rest ++ post) Oka ltac:(right; eexists; reflexivity)) as Hh. fold inner in Hh.
-            destruct (inner ++ 41%N :: rest ++ post) as [|c2 t2]; [exact I|]. cbn in Hh.
-            intros ->. destruct Hh as [H|[H|[H|H]]]; discriminate. }
+            destruct (inner ++ 41%N :: rest ++ post) as [|c2 t2]; [exact I|].
+            intros ->. destruct (head_fine_nq _ _ Hh) as (N1 & _). discriminate. }
         destruct f3 as [|f2]; [lia|].
         destruct (IHa Oka (41%N :: rest ++ post) {| opened := S (opened st); closed := closed st |} [] f2 f2
                     ltac:(right; eexists; reflexivity) ltac:(fold inner; lia) ltac:(fold inner; lia))
@@ -264,6 +274,39 @@ Proof.
         assert (k0 <= n) by (eapply (Dq_le input ci multi); eauto).
         exists k0. split; [|apply Semb; auto].
         apply SE_in. exists k1. split; [apply SE_run; auto|]. apply SE_one. rewrite Dq_flags. exact Hk.
+  - (* BAn *) intros cs eol b' IHb Hok post st acc fuel Ht Hf.
+    cbn [ok_b] in Hok. apply andb_true_iff in Hok as [Hok Okb]. apply andb_true_iff in Hok as [Ocs Hx].
+    cbn [show_b] in Hf |- *. set (rest := show_b b') in *.
+    assert (Lsh : length (cs ++ (if eol then 36%N else 94%N) :: rest) = length cs + 1 + length rest) by (rewrite app_length; cbn [length]; lia).
+    rewrite Lsh in Hf.
+    replace ((cs ++ (if eol then 36%N else 94%N) :: rest) ++ post) with (cs ++ (if eol then 36%N else 94%N) :: rest ++ post)
+      by (rewrite <- app_assoc; reflexivity).
+    rewrite (p_branch_run xpath cs fuel st _ acc Ocs) by (try (destruct eol; cbn; auto 10); lia).
+    destruct (fuel - length cs) as [|[|[|f3]]] eqn:Ef; try lia.
+    rewrite p_branch_S.
+    replace (((if eol then 36 else 94) =? 124) || ((if eol then 36 else 94) =? 41))%N with false by (destruct eol; reflexivity).
+    rewrite p_piece_S, Hx, p_atom_anchor. cbn [pbind].
+    assert (Hh : head_fine (rest ++ post)) by (apply (head_fine_b xpath); auto).
+    rewrite (head_fine_quant (rest ++ post) Hh). cbn [pbind].
+    destruct (IHb Okb post st ((if eol then REol else RBol) :: rev (map RChar cs) ++ acc) (S (S f3)) Ht
+                ltac:(fold rest; lia)) as (rs & st' & Eb & Semb).
+    fold rest in Eb. rewrite Hx in Eb. rewrite Eb.
+    exists (map RChar cs ++ (if eol then REol else RBol) :: rs), st'. split.
+    + f_equal. f_equal. f_equal. cbn [rev]. rewrite rev_app_distr, rev_involutive, <- !app_assoc. cbn [app]. reflexivity.
+    + intros m q Hm. cbn [Db]. rewrite SE_app.
+      change ((if eol then REol else RBol) :: rs) with ([if eol then REol else RBol] ++ rs).
+      rewrite SE_app. rewrite SE_in. split.
+      * intros (k0 & Hk & Hq). apply SE_in in Hk. destruct Hk as (k1 & Hk1 & Hk).
+        apply SE_run in Hk1; auto. apply SE_one in Hk. rewrite Dan_flags in Hk.
+        assert (k1 <= n) by (apply lit_le in Hk1; tauto).
+        assert (k0 <= n) by (eapply (Dan_le input ci multi); eauto).
+        apply Semb in Hq; auto.
+        apply in_flat_map. exists k0. split; [|exact Hq]. apply in_flat_map. exists k1. auto.
+      * intros H. apply in_flat_map in H as (k0 & Hk & Hq). apply in_flat_map in Hk as (k1 & Hk1 & Hk).
+        assert (k1 <= n) by (apply lit_le in Hk1; tauto).
+        assert (k0 <= n) by (eapply (Dan_le input ci multi); eauto).
+        exists k0. split; [|apply Semb; auto].
+        apply SE_in. exists k1. split; [apply SE_run; auto|]. apply SE_one. rewrite Dan_flags. exact Hk.
   - (* AOne *) intros b IHb Hok post st acc f1 f2 Ht Hf1 Hf2. cbn [show_a ok_a] in *.
     assert (Htb : term_b post) by (destruct Ht as [->|(t & ->)]; [left; auto|right; eauto]).
     destruct (IHb Hok post st [] f1 Htb ltac:(lia)) as (rs & st1 & Eb & Semb). cbn [rev app] in Eb.
@@ -497,6 +540,7 @@ Proof.
     apply andb_true_iff in H as [Hcs _]. rewrite Hcs, (IHa Ha), (IHb Hb), orb_true_r. reflexivity.
   - intros cs c k rel b IHb H. apply andb_true_iff in H as [H Hb]. apply andb_true_iff in H as [H _].
     rewrite H, (IHb Hb), orb_true_r. reflexivity.
+  - intros cs eol b IHb H. rewrite andb_false_r in H. discriminate.
   - intros b IHb H. exact (IHb H).
   - intros b IHb a IHa H. apply andb_true_iff in H as [H1 H2]. rewrite (IHb H1), (IHa H2). reflexivity.
 Qed.
@@ -521,3 +565,15 @@ Proof.
   rewrite <- Hc, <- Hm in M'.
   destruct (matches prog input 0 st0); destruct (matches prog' input 0 st0); try contradiction; auto; congruence.
 Qed.
+
+(* non-vacuity with anchors: ^ab$|c under flag m *)
+Definition ex_tree_an : alt :=
+  ACons (BAn [] false (BAn [97; 98]%N true (BEnd []))) (AOne (BEnd [99%N])).
+Example ex_tree_an_text : show_a ex_tree_an = [94; 97; 98; 36; 124; 99]%N /\ ok_a true ex_tree_an = true.
+Proof. split; reflexivity. Qed.
+Example ex_tree_an_runs :
+  match regex_new true true (show_a ex_tree_an) [109]%N with
+  | Ok re => (is_match re [120; 10; 97; 98; 10; 121]%N, is_match re [120; 97; 98; 10; 121]%N)
+  | _ => (Err ESyntax, Err ESyntax)
+  end = (Ok true, Ok false).
+Proof. vm_compute. reflexivity. Qed.
